@@ -767,3 +767,6 @@ add("C14", "failed-notice-suppressed-by-extra-condition", CTXF,
 add("C14", "manifest-read-with-error-handler", REQW,
     [("            with open(self.path, \"r\", encoding=\"utf-8\") as f:", "            with open(self.path, \"r\", encoding=\"utf-8\", errors=\"replace\") as f:")],
     "fire", "R-STRICT-DECODE", "RequirementsTxtWriter")
+add("C18", "call-target-rebuilt-from-original-node", "core_codemods/secure_random.py",
+    [("        return self.update_call_target(updated_node, \"secrets.SystemRandom()\")", "        return self.update_call_target(original_node, \"secrets.SystemRandom()\")")],
+    "fire", "R-LOST-UPDATE", "SecureRandomTransformer")
